@@ -49,11 +49,11 @@ def invariant(v, where, tag):
             check(conforms(val, T), "managed attribute conforms to its annotation", f"{tag}/nonconforming-{cname}.{a}", lambda: f"{where}: {cname}.{a} = {val!r}")
 
 
-def make(prop, fam, tmpl, opname, attr=None, conform=True, inplace_mode="sym"):
+def make(prop, fam, tmpl, opname, attr=None, conform=True, inplace_mode="sym", fault=0):
     """prop in {"C01","C03","C04"}; inplace_mode: "sym" (symbolic), False, True."""
     NS = FAMILIES[fam]
 
-    def h(n: int, e: List[int], x0: int, n0: int, s0: str, i0: int, xset: bool, i: int, i1: int, i2: int, s1: str, b1: bool, sel3: int, fk: int, bad: int, k: int, keyok: bool, inplace: bool) -> str:
+    def h(n: int, e: List[int], x0: int, n0: int, s0: str, i0: int, xset: bool, i: int, i1: int, i2: int, s1: str, b1: bool, sel3: int, fk: int, bad: int, k: int, keyok: bool, inplace: bool, kf: int) -> str:
         P = dict(n=n, e=e, x0=x0, n0=n0, s0=s0, i0=i0, i=i, i1=i1, i2=i2, s1=s1, b1=b1, sel3=sel3, fk=fk, bad=bad, k=k, keyok=keyok, inner_set=bool(xset))
         ip = bool(inplace) if inplace_mode == "sym" else inplace_mode
         if prop == "C01":
@@ -96,6 +96,12 @@ def make(prop, fam, tmpl, opname, attr=None, conform=True, inplace_mode="sym"):
         tag = tag + (f"/{op.note}" if op.note else "")
         s_o, s_by = snap(o), snap(by)
         s_args = [snap(a) for a in op.args]
+        if fault:
+            # E2-fault: an exception injected at the kf-th executed statement of library code (symbolic kf)
+            from vf import instrument
+
+            assume(1 <= kf <= fault)
+            instrument.arm(kf, "fault")
         try:
             r = op.call(o)
             exc = None
@@ -103,11 +109,20 @@ def make(prop, fam, tmpl, opname, attr=None, conform=True, inplace_mode="sym"):
             raise
         except Exception as ex:
             r, exc = None, ex
+        finally:
+            if fault:
+                from vf import instrument
+
+                instrument.disarm()
 
         if prop == "C01":
             check(same(snap(o), s_o), "a helper called without _inplace=True never changes the receiver (same object graph, equal contents), whether it returns or raises", f"{tag}/receiver-changed-{'raise' if exc else 'return'}", lambda: f"{op.name}: before {describe(s_o)} after {describe(snap(o))} exc={exc!r}")
             for a, sa_ in zip(op.args, s_args):
                 check(same(snap(a), sa_), "objects passed in as arguments are never modified", f"{tag}/argument-changed", lambda: f"{op.name}: {describe(sa_)} -> {describe(snap(a))}")
+            if fault:
+                from vf.instrument import InjectedFault
+
+                return "fault-injected" if isinstance(exc, InjectedFault) else ("raised" if exc else "completed-before-fault")
             return "raised" if exc else "returned"
         if prop == "C04":
             if exc is None:
@@ -137,7 +152,7 @@ def warm(tmpl):
         for i in (-1, 0, 2):
             for fk in (0, 1, 2, 3):
                 for ip in (False, True):
-                    out.append((n, [1, 2], 3, 4, "s", 5, n != 0, i, 6, 7, "t", fk % 2 == 0, fk % 3, fk, fk, n, True, ip))
+                    out.append((n, [1, 2], 3, 4, "s", 5, n != 0, i, 6, 7, "t", fk % 2 == 0, fk % 3, fk, fk, n, True, ip, 10 + 37 * fk + i))
     return out
 
 
